@@ -101,6 +101,7 @@ pub struct Shard {
     pub caps_hit: Vec<String>,
     heartbeat_every: u64,
     since_hb: u64,
+    last_hb: std::time::Instant,
     out: std::io::Stdout,
     pub stop: bool,
     /// replay mode: print details of every case
@@ -138,6 +139,7 @@ impl Shard {
             caps_hit: Vec::new(),
             heartbeat_every: 512,
             since_hb: 0,
+            last_hb: std::time::Instant::now(),
             out: std::io::stdout(),
             stop: false,
             verbose: false,
@@ -210,8 +212,10 @@ impl Shard {
             let _ = self.out.flush();
         } else {
             self.since_hb += 1;
-            if self.since_hb >= self.heartbeat_every {
+            // a heartbeat every 512 cases, and at least one per second while cases are slow
+            if self.since_hb >= self.heartbeat_every || self.last_hb.elapsed().as_millis() >= 1000 {
                 self.since_hb = 0;
+                self.last_hb = std::time::Instant::now();
                 let _ = writeln!(self.out, "H {}", self.cur_index);
                 let _ = self.out.flush();
             }
